@@ -354,6 +354,11 @@ class Lexer:
 
             elif state == 312:  # hex num second digit
                 tempbuf += ch
+                if not all(c in "0123456789abcdefABCDEF" for c in tempbuf):
+                    raise CklSyntaxError(
+                        f"Invalid hex escape \\x{tempbuf}",
+                        SourcePos(fname, line, column)
+                    )
                 token += chr(int(tempbuf, 16))
                 tempbuf = ""
                 state = 3
@@ -391,6 +396,11 @@ class Lexer:
 
             elif state == 412:  # hex num second digit
                 tempbuf += ch
+                if not all(c in "0123456789abcdefABCDEF" for c in tempbuf):
+                    raise CklSyntaxError(
+                        f"Invalid hex escape \\x{tempbuf}",
+                        SourcePos(fname, line, column)
+                    )
                 token += chr(int(tempbuf, 16))
                 tempbuf = ""
                 state = 4
@@ -454,6 +464,8 @@ class Lexer:
                     token += ch
                 elif ch in "()[]<>=! \t\n\r+-*/%,;#":
                     here = SourcePos(fname, line, column - len(token))
+                    if token.replace("_", "") == "":
+                        raise CklSyntaxError("Invalid hex literal", here)
                     token = str(int(token.replace("_", ""), 16))
                     self.tokens.append(Token(token, "int", here))
                     token = ""
@@ -469,6 +481,8 @@ class Lexer:
                     token += ch
                 elif ch in "()[]<>=! \t\n\r+-*/%,;#":
                     here = SourcePos(fname, line, column - len(token))
+                    if token.replace("_", "") == "":
+                        raise CklSyntaxError("Invalid binary literal", here)
                     self.tokens.append(
                         Token(str(int(token.replace("_", ""), 2)), "int", here)
                     )
